@@ -14,4 +14,5 @@ one() {
   echo "$id exit=$code violations=$v (without-input=$nf) undecided=$und checker-errors=$err first=$first"
 }
 export -f one
-ls seeded | grep '^C[0-9]*_[a-z]$' | xargs -P $jobs -I{} bash -c 'one {}'
+# seeds already in the log named by DONE (optional) are skipped
+ls seeded | grep '^C[0-9]*_[a-z]$' | grep -v -x -F -f <(cut -d' ' -f1 ${DONE:-/dev/null}) | xargs -P $jobs -I{} bash -c 'one {}'
